@@ -336,8 +336,13 @@ func ruleContiguousAdvance(w *core.World, r *core.Report, name string) {
 	// nextSeq phi: init = UnitSeq + 1, step +1
 	var next *ssa.Phi
 	for _, in := range core.Instrs(f) {
-		if ph, ok := in.(*ssa.Phi); ok && ph.Comment == "nextSeq" {
-			next = ph
+		// the next expected sequence number: the loop variable initialised to <frontier>.UnitSeq + 1
+		if ph, ok := in.(*ssa.Phi); ok {
+			for _, e := range ph.Edges {
+				if b, isB := e.(*ssa.BinOp); isB && b.Op == token.ADD && isConstInt(1)(b.Y) && fieldNameOfLoad(b.X) == "UnitSeq" {
+					next = ph
+				}
+			}
 		}
 	}
 	if next == nil {
